@@ -340,6 +340,37 @@ func withBudget(g graph.Graph, weight func(x, y int64) (float64, bool), budget i
 	return bg
 }
 
+// pwOnly exposes graph.Graph plus a Weight method and nothing else: it
+// satisfies path.Weighted but not graph.Weighted (no WeightedEdge), like
+// gonum's own re-weighting views. Routines documented to use "Weighted" must
+// use its weights; DijkstraAllPaths and NewDStarLite, documented to ask for
+// graph.Weighted ("graph.Weighter"), must fall back to UniformCost.
+type pwOnly struct {
+	graph.Graph
+	w func(x, y int64) (float64, bool)
+}
+
+func (p pwOnly) Weight(x, y int64) (float64, bool) { return p.w(x, y) }
+
+type pwOnlyDirected struct {
+	pwOnly
+	d graph.Directed
+}
+
+func (p pwOnlyDirected) HasEdgeFromTo(u, v int64) bool { return p.d.HasEdgeFromTo(u, v) }
+func (p pwOnlyDirected) To(id int64) graph.Nodes       { return p.d.To(id) }
+
+// hideWeights exposes graph.Graph only: every routine must use UniformCost.
+type hideWeights struct{ graph.Graph }
+
+type hideWeightsDirected struct {
+	hideWeights
+	d graph.Directed
+}
+
+func (p hideWeightsDirected) HasEdgeFromTo(u, v int64) bool { return p.d.HasEdgeFromTo(u, v) }
+func (p hideWeightsDirected) To(id int64) graph.Nodes       { return p.d.To(id) }
+
 // weightedGraph is graph.Weighted: DijkstraAllPaths and NewDStarLite ask for
 // the full graph.Weighted (with WeightedEdge) and silently fall back to
 // UniformCost otherwise, so the wrappers must keep satisfying it.
@@ -376,7 +407,7 @@ func minLines(l graph.WeightedLines) float64 {
 func build(r *vrt.Rand, g *RG, flavor string) Built {
 	order := r.Perm(g.N)
 	switch flavor {
-	case "simple", "ordered", "trav", "trav-noempty":
+	case "simple", "ordered", "trav", "trav-noempty", "pw-only", "hide-weights":
 		var wg weightedGraph
 		if g.Directed {
 			h := simple.NewWeightedDirectedGraph(0, math.Inf(1))
@@ -408,6 +439,20 @@ func build(r *vrt.Rand, g *RG, flavor string) Built {
 		switch flavor {
 		case "simple":
 			return Built{Flavor: flavor, G: wg, T: wg, Weight: wg.Weight}
+		case "pw-only":
+			pw := pwOnly{Graph: wg, w: wg.Weight}
+			if dg, ok := wg.(graph.Directed); ok {
+				pd := pwOnlyDirected{pwOnly: pw, d: dg}
+				return Built{Flavor: flavor, G: pd, T: pd, Weight: wg.Weight}
+			}
+			return Built{Flavor: flavor, G: pw, T: pw, Weight: wg.Weight}
+		case "hide-weights":
+			hw := hideWeights{Graph: wg}
+			if dg, ok := wg.(graph.Directed); ok {
+				hd := hideWeightsDirected{hideWeights: hw, d: dg}
+				return Built{Flavor: flavor, G: hd, T: hd}
+			}
+			return Built{Flavor: flavor, G: hw, T: hw}
 		case "ordered":
 			rank := make(map[int64]int, g.N)
 			for pos, i := range r.Perm(g.N) {
